@@ -74,6 +74,25 @@ type c03Table struct {
 	rt     *patRouter
 	routes []c03Route
 	hit    *c03Hit
+	// custom fallback handlers installed through SetNotFoundHandler / SetNotAllowedHandler
+	useNF, useNA bool
+	sawNF, sawNA bool
+}
+
+func (tb *c03Table) installFallbacks(nf, na bool) {
+	tb.useNF, tb.useNA = nf, na
+	if nf {
+		tb.rt.SetNotFoundHandler(http.HandlerFunc(func(w http.ResponseWriter, r *http.Request) {
+			tb.sawNF = true
+			w.WriteHeader(http.StatusNotFound)
+		}))
+	}
+	if na {
+		tb.rt.SetNotAllowedHandler(http.HandlerFunc(func(w http.ResponseWriter, r *http.Request) {
+			tb.sawNA = true
+			w.WriteHeader(http.StatusMethodNotAllowed)
+		}))
+	}
 }
 
 // register feeds one registration to the real router and to the reference table
@@ -120,6 +139,7 @@ func (tb *c03Table) request(m *vk.M, desc func() string, method, p string) strin
 	req.URL = &url.URL{Scheme: "http", Host: "c03.local", Path: p}
 	rec := httptest.NewRecorder()
 	tb.hit = nil
+	tb.sawNF, tb.sawNA = false, false
 	if pv, panicked := vk.Recover(func() { tb.rt.ServeHTTP(rec, req) }); panicked {
 		m.Violate("C03:router-panic", desc(), "%s %q: ServeHTTP panicked: %v", method, p, pv)
 		return "panic"
@@ -147,6 +167,10 @@ func (tb *c03Table) request(m *vk.M, desc func() string, method, p string) strin
 			if matches[i].id == tb.hit.id {
 				chosen = &matches[i]
 			}
+		}
+		if tb.sawNF || tb.sawNA {
+			m.Violate("C03:fallback-handler-ran-on-match", desc(), "%s: notFound=%v notAllowed=%v although %v match", where, tb.sawNF, tb.sawNA, c03Names(matches))
+			return "match"
 		}
 		if chosen == nil {
 			m.Violate("C03:wrong-handler", desc(), "%s: handler of route #%d (%s) ran, which does not match; matching: %v", where, tb.hit.id, c03Name(tb.routes, tb.hit.id), c03Names(matches))
@@ -180,6 +204,16 @@ func (tb *c03Table) request(m *vk.M, desc func() string, method, p string) strin
 		return "nomatch"
 	}
 	if len(others) > 0 {
+		if tb.sawNF {
+			m.Violate("C03:not-found-handler-on-405", desc(), "%s: the not-found handler ran although other methods match: %v", where, c03Keys(others))
+			return "405"
+		}
+		if tb.useNA {
+			if !tb.sawNA {
+				m.Violate("C03:not-allowed-handler-not-used", desc(), "%s: status %d, the installed not-allowed handler did not run (other methods: %v)", where, rec.Code, c03Keys(others))
+			}
+			return "405-custom"
+		}
 		if rec.Code != http.StatusMethodNotAllowed {
 			m.Violate("C03:expected-405", desc(), "%s: status %d, want 405 (other methods with a match: %v)", where, rec.Code, c03Keys(others))
 			return "405"
@@ -197,6 +231,16 @@ func (tb *c03Table) request(m *vk.M, desc func() string, method, p string) strin
 			m.Violate("C03:allow-header-wrong", desc(), "%s: Allow %q, want exactly %v", where, rec.Header().Get("Allow"), c03Keys(others))
 		}
 		return "405"
+	}
+	if tb.sawNA {
+		m.Violate("C03:not-allowed-handler-on-404", desc(), "%s: the not-allowed handler ran although no method has a matching pattern", where)
+		return "404"
+	}
+	if tb.useNF {
+		if !tb.sawNF {
+			m.Violate("C03:not-found-handler-not-used", desc(), "%s: status %d, the installed not-found handler did not run", where, rec.Code)
+		}
+		return "404-custom"
 	}
 	if rec.Code != http.StatusNotFound {
 		m.Violate("C03:expected-404", desc(), "%s: status %d, want 404", where, rec.Code)
@@ -349,17 +393,21 @@ func TestVerifC03Router(t *testing.T) {
 				segs := strings.Split(path.Clean(reg.Pattern), "/")
 				for i, sg := range segs {
 					if strings.HasPrefix(sg, ":") {
-						segs[i] = []string{"a", "b", "c", "z"}[r.Intn(4)]
+						// a letter, the parameter's own spelling, or another parameter-looking segment
+						segs[i] = []string{"a", "b", "c", "z", sg, ":q"}[r.Intn(6)]
 					}
 				}
 				extra = append(extra, strings.Join(segs, "/"))
 			}
+			extra = append(extra, path.Clean(reg.Pattern)) // the pattern text itself as a request path
 		}
+		useNF, useNA := r.Intn(3) == 0, r.Intn(3) == 0
 		if !m.Only(idx) {
 			continue
 		}
-		desc := func() string { return fmt.Sprintf("case=%d;%s", idx, vk.JSON(regs)) }
+		desc := func() string { return fmt.Sprintf("case=%d;%s notFound=%v notAllowed=%v", idx, vk.JSON(regs), useNF, useNA) }
 		tb := &c03Table{rt: NewRouter().(*patRouter)}
+		tb.installFallbacks(useNF, useNA)
 		v0 := m.ViolCount()
 		for _, reg := range regs {
 			tb.register(m, desc, reg)
@@ -381,7 +429,7 @@ func TestVerifC03Router(t *testing.T) {
 		for k, v := range local {
 			classes[k] += v
 		}
-		m.Case(vk.Digest(vk.JSON(regs)), local["match"] > 0 && local["404"] > 0)
+		m.Case(vk.Digest(vk.JSON(regs), tb.useNF, tb.useNA), local["match"] > 0 && local["404"]+local["404-custom"] > 0)
 		if m.WantSample() && idx%173 == 1 {
 			m.Sample(map[string]any{"registrations": regs, "accepted_routes": c03Names(tb.routes), "request_outcomes": local})
 		}
